@@ -151,6 +151,16 @@ def _queries(thr, targets):
     qs["bootstrap_sample/by_label"] = boot("sample", sampling_method="replacement", stratified_sampling="by_label")
     qs["bootstrap_metric/smoothing"] = boot("metric", sampling_method="replacement", smoothing=True)
     qs["bootstrap_ci/quantile"] = boot("ci", sampling_method="replacement", bootstrap_method="quantile", smoothing=True)
+
+    # every rate name (aliases included) as a bootstrap metric given BY NAME
+    def boot_named(name):
+        def q(s):
+            from score_analysis import BootstrapConfig
+            np.random.seed(777)
+            return np.asarray(s.bootstrap_metric(name, config=BootstrapConfig(nb_samples=3, sampling_method="replacement"), threshold=0.5), dtype=float)
+        return q
+    for name in ("tpr", "fpr", "tar", "frr", "trr", "far", "acceptance_rate", "rejection_rate"):
+        qs[f"bootstrap_metric/by-name/{name}"] = boot_named(name)
     for name in ("hard_pos_ratio", "hard_neg_ratio", "easy_pos_ratio", "easy_neg_ratio", "nb_easy_samples", "nb_hard_pos",
                  "nb_hard_neg", "nb_hard_samples", "nb_all_pos", "nb_all_neg", "nb_all_samples", "easy_ratio", "hard_ratio"):
         qs[name] = (lambda s, name=name: getattr(s, name))
